@@ -128,6 +128,20 @@ theorem execItem_loading {q : LoadQuirks} {F : Finder} {enter : Str → St → R
       · next s1 hlock =>
         obtain ⟨hnot, hl1⟩ := lock_some hlock
         exact runFound_loading h hl1 he
+  | loadWith k url =>
+    simp only [execItem] at he
+    split at he
+    · simp at he
+    · simp at he
+    · simp at he
+    · next name calls hf =>
+      split at he
+      · simp at he
+      · next s1 hlock =>
+        obtain ⟨hnot, hl1⟩ := lock_some hlock
+        split at he
+        · simp at he
+        · exact runFound_loading h hl1 he
 
 theorem execItems_loading {q : LoadQuirks} {F : Finder} {enter : Str → St → Res} (h : Balanced enter)
     {self : Str} (items : List Item) {j : Nat} {b : Binds} {s s' : St}
@@ -156,6 +170,7 @@ def Res.isBad (bad : Err → Bool) : Res → Bool
 /-- `bad` errors are not produced by a statement itself, except possibly the loop error -/
 def OnlyNested (bad : Err → Bool) : Prop :=
   bad .fault = false ∧ bad .format = false ∧ bad .notFound = false ∧ bad .badBump = false
+    ∧ bad .config = false
 
 theorem enterSub_bad {bad : Err → Bool} {enter : Str → St → Res} {name : Str} {s : St}
     (h : (enter name { s with fwdSeen := false }).isBad bad = false) :
@@ -218,9 +233,9 @@ theorem execItems_bad {bad : Err → Bool} (hb : OnlyNested bad) {q : LoadQuirks
     (Pre : Str → List Str → Prop)
     (henter : ∀ n (s1 : St), Pre n s1.loading → (enter n s1).isBad bad = false)
     {self : Str} (L : List Str) (items : List Item)
-    (hstep : ∀ k url uq calls n c, Item.load k url uq ∈ items → F.find self k url calls = .found n c →
-      n ∉ L → Pre n (n :: L))
-    (hloop : bad .loop = true → ∀ k url uq calls n c, Item.load k url uq ∈ items →
+    (hstep : ∀ it k url calls n c, it ∈ items → it.target = some (k, url) →
+      F.find self k url calls = .found n c → n ∉ L → Pre n (n :: L))
+    (hloop : bad .loop = true → ∀ it k url calls n c, it ∈ items → it.target = some (k, url) →
       F.find self k url calls = .found n c → n ∉ L)
     {j : Nat} {b : Binds} {s : St} (hL : s.loading = L) :
     (execItems q F enter self items j b s).isBad bad = false := by
@@ -231,12 +246,12 @@ theorem execItems_bad {bad : Err → Bool} (hb : OnlyNested bad) {q : LoadQuirks
     split
     · next s' b' h1 =>
       apply ih
-      · intro k url uq calls n c hm; exact hstep k url uq calls n c (List.mem_cons_of_mem _ hm)
-      · intro hl k url uq calls n c hm; exact hloop hl k url uq calls n c (List.mem_cons_of_mem _ hm)
+      · intro it' k url calls n c hm; exact hstep it' k url calls n c (List.mem_cons_of_mem _ hm)
+      · intro hl it' k url calls n c hm; exact hloop hl it' k url calls n c (List.mem_cons_of_mem _ hm)
       · rw [execItem_loading hbal h1, hL]
     · next e s' _ h1 =>
       -- the statement itself failed: show the error is not `bad`
-      obtain ⟨hf, hfo, hnf, hbb⟩ := hb
+      obtain ⟨hf, hfo, hnf, hbb, hcf⟩ := hb
       cases it with
       | mark => simp [execItem] at h1
       | bump k t =>
@@ -262,15 +277,40 @@ theorem execItems_bad {bad : Err → Bool} (hb : OnlyNested bad) {q : LoadQuirks
               have := lock_none.mp hlock; simpa [hL] using this
             cases hbl : bad .loop with
             | false => simp [Res.isBad, hbl]
-            | true => exact absurd hin (hloop hbl k url uq s.calls name calls (List.mem_cons_self ..) hfind)
+            | true => exact absurd hin (hloop hbl _ k url s.calls name calls (List.mem_cons_self ..) rfl hfind)
           · next s1 hlock =>
             obtain ⟨hnot, hl1⟩ := lock_some hlock
             simp only [hL] at hnot hl1
-            have hpre := hstep k url uq s.calls name calls (List.mem_cons_self ..) hfind hnot
+            have hpre := hstep _ k url s.calls name calls (List.mem_cons_self ..) rfl hfind hnot
             have := runFound_bad (bad := bad) hq (F := F) (enter := enter) (name := name) (j := j)
               (b := b) (s1 := s1) (k := k)
               (fun s2 h2 => henter name s2 (by rw [h2, hl1]; exact hpre))
             rw [h1] at this; exact this
+      | loadWith k url =>
+        simp only [execItem] at h1
+        split at h1
+        · simp at h1; obtain ⟨⟨rfl, _⟩, _⟩ := h1; exact hf
+        · simp at h1; obtain ⟨⟨rfl, _⟩, _⟩ := h1; exact hfo
+        · simp at h1; obtain ⟨⟨rfl, _⟩, _⟩ := h1; exact hnf
+        · next name calls hfind =>
+          split at h1
+          · next hlock =>
+            simp at h1; obtain ⟨⟨rfl, _⟩, _⟩ := h1
+            have hin : name ∈ L := by
+              have := lock_none.mp hlock; simpa [hL] using this
+            cases hbl : bad .loop with
+            | false => simp [Res.isBad, hbl]
+            | true => exact absurd hin (hloop hbl _ k url s.calls name calls (List.mem_cons_self ..) rfl hfind)
+          · next s1 hlock =>
+            obtain ⟨hnot, hl1⟩ := lock_some hlock
+            simp only [hL] at hnot hl1
+            split at h1
+            · simp at h1; obtain ⟨⟨rfl, _⟩, _⟩ := h1; exact hcf
+            · have hpre := hstep _ k url s.calls name calls (List.mem_cons_self ..) rfl hfind hnot
+              have := runFound_bad (bad := bad) hq (F := F) (enter := enter) (name := name) (j := j)
+                (b := b) (s1 := s1) (k := k)
+                (fun s2 h2 => henter name s2 (by rw [h2, hl1]; exact hpre))
+              rw [h1] at this; exact this
 
 /-! ### the termination measure -/
 
@@ -443,6 +483,23 @@ theorem execItem_cacheLe {q : LoadQuirks} (hq : q.importFreshCache = false) {F :
         split at hlock
         · cases hlock
         · cases hlock; exact this
+  | loadWith k url =>
+    simp only [execItem] at he
+    split at he
+    · simp at he
+    · simp at he
+    · simp at he
+    · next name calls hf =>
+      split at he
+      · simp at he
+      · next s1 hlock =>
+        split at he
+        · simp at he
+        · have := runFound_cacheLe hq h he
+          unfold lock at hlock
+          split at hlock
+          · cases hlock
+          · cases hlock; exact this
 
 theorem execItems_cacheLe {q : LoadQuirks} (hq : q.importFreshCache = false) {F : Finder}
     {enter : Str → St → Res} (h : CacheMono enter)
@@ -568,6 +625,23 @@ theorem execItem_calls {P : List Call → Prop} {q : LoadQuirks} {F : Finder} (h
         split at hlock
         · cases hlock
         · cases hlock; exact runFound_calls h hc he
+  | loadWith k url =>
+    simp only [execItem] at he
+    split at he
+    · simp at he
+    · simp at he
+    · simp at he
+    · next name calls hf =>
+      have hc := (hF self k url s.calls hp).1 name calls hf
+      split at he
+      · simp at he
+      · next s1 hlock =>
+        split at he
+        · simp at he
+        · unfold lock at hlock
+          split at hlock
+          · cases hlock
+          · cases hlock; exact runFound_calls h hc he
 
 theorem execItems_calls {P : List Call → Prop} {q : LoadQuirks} {F : Finder} (hF : FindPres P F)
     {enter : Str → St → Res} (h : CallsPres P enter)
